@@ -156,10 +156,11 @@ Section WithJid.
     else if beq t t_list_multi then Ok (VStrs (value f), negb (is_nil (value f)))
     else Ok (VNil, false).
 
-  (* Data.Get; [None] is a nil receiver *)
-  Definition get (d : option data) (id : bytes) : res (fval * bool) :=
+  (* Data.Get; [None] is a nil receiver. [guard] is the repair (if d == nil
+     { return nil, false }); the pinned tree dereferenced d *)
+  Definition get_gen (guard : bool) (d : option data) (id : bytes) : res (fval * bool) :=
     match d with
-    | None => Ok (VNil, false)
+    | None => if guard then Ok (VNil, false) else Panic
     | Some d =>
         match match values d with Some m => assoc id m | None => None end with
         | Some v => Ok (v, true)
@@ -169,6 +170,9 @@ Section WithJid.
                   end
         end
     end.
+
+  Definition get := get_gen true.
+  Definition get_pinned := get_gen false.
 
   (* ---- Set ---- *)
 
@@ -187,16 +191,32 @@ Section WithJid.
     | (k', v') :: r => if beq k k' then (k, v) :: r else (k', v') :: assoc_set k v r
     end.
 
-  (* result: new form, ok, error-returned *)
-  Definition set (d : data) (id : bytes) (v : fval) : res (data * bool * bool) :=
+  (* d.values[id] = v: assignment to an entry of a nil map panics *)
+  Definition map_assign (m : option (list (bytes * fval))) (id : bytes) (v : fval)
+    : res (list (bytes * fval)) :=
+    match m with
+    | None => Panic
+    | Some m => Ok (assoc_set id v m)
+    end.
+
+  (* result: new form, ok, error-returned. [alloc] is the repair
+     (if d.values == nil { d.values = make(...) }); the pinned tree had none *)
+  Definition set_gen (alloc : bool) (d : data) (id : bytes) (v : fval) : res (data * bool * bool) :=
     let found := find_field id (fields d) in
     let t := match found with Some f => typ f | None => [] end in
     let ok := match found with Some _ => true | None => false end in
     if beq t t_fixed && ok then Ok (d, false, true)
     else if negb (set_type_ok t v) then Ok (d, false, true)
     else
-      let m := match values d with Some m => m | None => [] end in
-      Ok (mkdata (title d) (instructions d) (dtyp d) (fields d) (Some (assoc_set id v m)), ok, false).
+      let m := match values d with
+               | None => if alloc then Some [] else None
+               | Some m => Some m
+               end in
+      bind (map_assign m id v) (fun m' =>
+      Ok (mkdata (title d) (instructions d) (dtyp d) (fields d) (Some m'), ok, false)).
+
+  Definition set := set_gen true.
+  Definition set_pinned := set_gen false.
 
   (* ---- TokenReader ---- *)
 
